@@ -289,6 +289,23 @@ func (h *c03Harness) monStep(ev string, lcpBefore [3]int, availBefore int) {
 			viol(i)
 		}
 	}
+	// retained state: a session that is in the indexes but not in Network/Open (its link is unauthenticated) must not
+	// hold a pool lease — lease and dataplane session belong to an authenticated link
+	for i, s := range h.sess {
+		if s == nil {
+			continue
+		}
+		h.c.sessionMu.RLock()
+		live := h.c.sidIndex[s.PPPoESessionID] == s
+		h.c.sessionMu.RUnlock()
+		s.mu.Lock()
+		held := s.allocatedPool != "" && s.IPv4Address != nil
+		net := s.Phase == ppp.PhaseNetwork || s.Phase == ppp.PhaseOpen
+		s.mu.Unlock()
+		if live && !net && held {
+			viol(i)
+		}
+	}
 	// an address leaving the pool is a service output of whoever caused it: the slot the event addressed,
 	// or, for an AAA response, any slot (it must then be authorised)
 	if c03Avail(h.reg) < availBefore {
@@ -723,7 +740,15 @@ func (h *c03Harness) raced(i int, proto, kind string, k int, akind string) {
 	if live {
 		_ = s.dispatcher.HandleFrame(pnum, payload)
 	}
+	ended := false
+	if f := reflect.ValueOf(s).Elem().FieldByName("linkEnded"); f.IsValid() {
+		p := (*bool)(unsafe.Pointer(f.UnsafeAddr()))
+		ended, *p = *p, false
+	}
 	s.mu.Unlock()
+	if ended { // what handleSession does after handlePPP returned
+		h.c.handleDeadPeer(s.PPPoESessionID)
+	}
 	if !finished {
 		select {
 		case pa = <-done:
